@@ -117,6 +117,8 @@ type c4typed struct {
 	repeated bool
 	// write builds the Go rows from canonical values and returns the file
 	write func(path string, rows [][][]byte) ([]byte, error)
+	// writeGroups writes one row group per element of groups with ONE writer (c04_dictreset.go)
+	writeGroups func(mode string, groups [][][][]byte) ([][]byte, error)
 }
 
 func c4le32(v []byte) uint32 {
@@ -157,22 +159,40 @@ func c4WriteTyped[T any](path string, rows []T) (file []byte, err error) {
 
 // flat: every row holds exactly one value
 func c4Flat[T any](name string, k c4kind, mk func([]byte) T) c4typed {
-	return c4typed{name: name, k: k, write: func(path string, rows [][][]byte) ([]byte, error) {
+	conv := func(rows [][][]byte) []T {
 		rs := make([]T, len(rows))
 		for i, r := range rows {
 			rs[i] = mk(r[0])
 		}
-		return c4WriteTyped(path, rs)
+		return rs
+	}
+	return c4typed{name: name, k: k, write: func(path string, rows [][][]byte) ([]byte, error) {
+		return c4WriteTyped(path, conv(rows))
+	}, writeGroups: func(mode string, groups [][][][]byte) ([][]byte, error) {
+		gs := make([][]T, len(groups))
+		for i, g := range groups {
+			gs[i] = conv(g)
+		}
+		return c4WriteTypedGroups(mode, gs)
 	}}
 }
 
 func c4Rep[T any](name string, k c4kind, mk func([][]byte) T) c4typed {
-	return c4typed{name: name, k: k, repeated: true, write: func(path string, rows [][][]byte) ([]byte, error) {
+	conv := func(rows [][][]byte) []T {
 		rs := make([]T, len(rows))
 		for i, r := range rows {
 			rs[i] = mk(r)
 		}
-		return c4WriteTyped(path, rs)
+		return rs
+	}
+	return c4typed{name: name, k: k, repeated: true, write: func(path string, rows [][][]byte) ([]byte, error) {
+		return c4WriteTyped(path, conv(rows))
+	}, writeGroups: func(mode string, groups [][][][]byte) ([][]byte, error) {
+		gs := make([][]T, len(groups))
+		for i, g := range groups {
+			gs[i] = conv(g)
+		}
+		return c4WriteTypedGroups(mode, gs)
 	}}
 }
 
@@ -237,6 +257,23 @@ type c4fileColumn struct {
 }
 
 func c4ReadColumn(k c4kind, repeated bool, file []byte) (col c4fileColumn, err error) {
+	return c4ReadColumnGroups(k, repeated, file, nil)
+}
+
+// one c4fileColumn per row group of the file
+func c4ReadRowGroups(k c4kind, repeated bool, file []byte) ([]c4fileColumn, error) {
+	var groups []c4fileColumn
+	last, err := c4ReadColumnGroups(k, repeated, file, &groups)
+	if err != nil {
+		return nil, err
+	}
+	if last.rowGroups > 0 {
+		groups = append(groups, last)
+	}
+	return groups, nil
+}
+
+func c4ReadColumnGroups(k c4kind, repeated bool, file []byte, perGroup *[]c4fileColumn) (col c4fileColumn, err error) {
 	defer func() {
 		if p := recover(); p != nil {
 			err = fmt.Errorf("panic while reading the file back: %v", p)
@@ -248,6 +285,10 @@ func c4ReadColumn(k c4kind, repeated bool, file []byte) (col c4fileColumn, err e
 	}
 	buf := make([]parquet.Value, 997)
 	for _, rg := range f.RowGroups() {
+		if perGroup != nil && col.rowGroups > 0 {
+			*perGroup = append(*perGroup, col)
+			col = c4fileColumn{}
+		}
 		col.rowGroups++
 		pages := rg.ColumnChunks()[0].Pages()
 		for {
@@ -510,7 +551,7 @@ func RunC04DictTyped(ctx *core.Ctx) {
 				}
 				r := ctx.Rand("c04dicttyped/" + shape + "/" + j.t.name + "/" + j.path)
 				w.r = r
-				for rep := 0; rep < ctx.Scale(1, 3); rep++ {
+				for rep := 0; rep < ctx.Scale(1, 2); rep++ {
 					for _, n := range big {
 						for _, pattern := range []string{"late-new", "all-new", "mixed"} {
 							w.typedDictCase(j.t, j.path, pattern, c4TypedRows(j.t, r, c4TypedSeq(j.t.k, r, n, pattern)))
